@@ -114,6 +114,7 @@ def run(ctx):
     ctx.rule("C01-R3", "one-frame floor: every usize that can enter a returned duration vector is >= 1")
     ctx.rule("C01-R4", "every label contributes all states: Models::duration/stream map over labels.iter() without skip/take/step_by/filter; stream covers states 2..2+num_states")
     ctx.rule("C01-R5", "optional third stream: every use of constant stream index 2 in the synthesis closure is control dependent on num_streams > 2")
+    ctx.rule("C01-R7", "shape agreement of the MLPG band matrix: every row of `wuw` is allocated with exactly the value stored in the `width` field (which bounds all band indices), there are `length` rows and `wum` has `length` entries, `length` being the frame count of the filtered parameters")
     ctx.rule("C01-R6", "explicit-panic ledger over K (panic!/todo!/unwrap/expect/range slicing/integer division/precondition APIs): each site T1 or T2; SpeechGenerator::new's panics are discharged against how Engine::generator builds its arguments")
     p = cm.program(ctx)
     cg = cm.callgraph(p)
@@ -352,6 +353,9 @@ def run(ctx):
     # ---- R5
     r5(ctx, p, K)
 
+    # ---- R7
+    r7(ctx, p)
+
     # ---- R6
     r6(ctx, p, cg, K)
 
@@ -528,3 +532,96 @@ def odd_lpf(ctx, p, site):
                  "SpeechGenerator::new panics for every non-empty utterance (%s)" % (show(c), "; ".join(bad)), site.loc())
     else:
         ctx.ok("C01-R6", "T2 odd-LPF panic: unreachable for the 2-stream placeholder (widths %s); 3-stream LPF order is odd (voice-format fact)" % widths, site.loc())
+
+
+def r7(ctx, p):
+    fn = "mlpg_adjust::mlpg::MlpgMatrix::calc_wuw_and_wum"
+    b = cm.body_or_fail(ctx, p, "C01-R7", fn)
+    if b is None:
+        return
+    eb = ExprBuilder(b)
+    rets = [e for bb, e, item in paths.return_exprs(b, eb) if e[0] == "agg" and e[1].endswith("MlpgMatrix::MlpgMatrix")]
+    if len(rets) != 1:
+        ctx.fail("C01-R7", fn, "return value", "expected one MlpgMatrix literal", b.loc())
+        return
+    f = dict(zip(rets[0][3], rets[0][2]))
+    width_p = to_poly(f["width"])
+    length_p = to_poly(f["length"])
+    names = {d.get("name"): l for l, d in enumerate(b.locals) if d.get("name")}
+
+    def local_of(e):
+        return e[1] if e[0] == "var" and isinstance(e[1], int) else None
+    wuw_l, wum_l = local_of(f["wuw"]), local_of(f["wum"])
+    if wuw_l is None:
+        wuw_l = names.get("wuw")
+    if wum_l is None:
+        wum_l = names.get("wum")
+    loops = b.natural_loops()
+
+    def rows_of(target_local, want_inner):
+        """-> list of (count description ok?, inner ok?, span) for every way rows enter the vector"""
+        found = []
+        # (a) vec![row; n] assigned to the local
+        for d in b.defs().get(target_local, []):
+            if b.is_cleanup(d[0]) or d[1] != "term":
+                continue
+            e = eb.at(d[0]).call(d[2])
+            if e[0] == "call" and e[1].endswith("from_elem") and len(e[2]) == 2:
+                row, n = e[2]
+                inner_ok = True
+                if want_inner is not None:
+                    inner_ok = row[0] == "call" and row[1].endswith("from_elem") and to_poly(row[2][1]) == want_inner
+                found.append((to_poly(n) == length_p, inner_ok, d[2]["span"], show(row)[:60]))
+        # (b) push inside a loop over 0..length
+        for bb, t in b.calls():
+            c = t["callee"]
+            if c["k"] != "fndef" or not cm.callee_name(c).endswith("Vec::<T, A>::push"):
+                continue
+            recv = t["args"][0]
+            rl = recv["place"]["local"]
+            base = None
+            for dbb, didx, ditem in b.defs().get(rl, []):
+                if didx != "term" and ditem["rv"]["k"] == "ref":
+                    base = ditem["rv"]["place"]["local"]
+            if base != target_local:
+                continue
+            row = eb.at(bb).op(t["args"][1])
+            inner_ok = True
+            if want_inner is not None:
+                inner_ok = row[0] == "call" and row[1].endswith("from_elem") and to_poly(row[2][1]) == want_inner
+            # exactly once per iteration of the outermost 0..length loop, unconditionally
+            cnt_ok = False
+            for h, lb in loops:
+                if bb in lb:
+                    gs = paths.guards(b, bb, eb)
+                    rng = [g for g in gs if g[0] == "some" and "Range" in show(g[1])]
+                    cond = [g for g in gs if g[0] in ("true", "false")]
+                    inner_loops = [1 for h2, lb2 in loops if bb in lb2 and lb2 < lb]
+                    if rng and not cond and not inner_loops:
+                        for x in walk(rng[0][1]):
+                            if x[0] == "agg" and x[1].endswith("Range::Range") and x[2][0][0] == "c" and x[2][0][1] == 0 and to_poly(x[2][1]) == length_p:
+                                cnt_ok = True
+            found.append((cnt_ok, inner_ok, t["span"], show(row)[:60]))
+        return found
+    for nm, l, inner in (("wuw", wuw_l, width_p), ("wum", wum_l, None)):
+        if l is None:
+            ctx.fail("C01-R7", fn, nm, "cannot identify the `%s` vector" % nm, b.loc())
+            continue
+        fr = rows_of(l, inner)
+        if not fr:
+            ctx.fail("C01-R7", fn, nm + " rows", "no allocation of `%s` found" % nm, b.loc())
+        for cnt_ok, inner_ok, span, rs in fr:
+            if cnt_ok and inner_ok:
+                ctx.ok("C01-R7", "%s: `length` entries%s" % (nm, ", each row allocated with the `width` field's value" if inner is not None else ""), cm.loc_of(span))
+            else:
+                ctx.fail("C01-R7", fn, nm + " shape", "`%s` is allocated as %s: row count matches length=%s, row width matches the width field (%s)=%s; band indices up to width-1 would go out of range" % (nm, rs, cnt_ok, width_p, inner_ok), cm.loc_of(span))
+    # width = 2*max_width + 1 and length = frames of the first window's sequence
+    wtxt = show(f["width"])
+    if "max_width(windows)" in wtxt and to_poly(f["width"], lambda e: ("MW",) if e[0] == "call" and e[1].endswith("Windows::max_width") else None) == Poly.atom(("MW",)) * Poly.const(2) + Poly.const(1):
+        ctx.ok("C01-R7", "width = 2*windows.max_width() + 1", b.loc())
+    else:
+        ctx.fail("C01-R7", fn, "width", "width = %s" % wtxt, b.loc())
+    if show(f["length"]) == "len(parameters[0])":
+        ctx.ok("C01-R7", "length = parameters[0].len() (frames after masking)", b.loc())
+    else:
+        ctx.fail("C01-R7", fn, "length", "length = %s" % show(f["length"]), b.loc())
